@@ -162,7 +162,7 @@ class Algorithm(Generic[R], SampleDistribution):
 
     @abstractmethod
     def estimate_logpdf(
-        self, key: PRNGKey, v: ChoiceMap, *args: tuple[Any, ...]
+        self, key: PRNGKey, v: ChoiceMap, *args: Any
     ) -> Score:
         """
         Given a [`ChoiceMap`][genjax.core.ChoiceMap] and a [`Target`][genjax.inference.Target], return a random [`Weight`][genjax.core.Weight] estimate of the normalized density of the target at the sample.
@@ -241,7 +241,7 @@ class Marginal(Generic[R], SampleDistribution):
         self,
         key: PRNGKey,
         v: ChoiceMap,
-        *args: tuple[Any, ...],
+        *args: Any,
     ) -> Score:
         if self.algorithm is None:
             _, weight = self.gen_fn.importance(key, v, args)
